@@ -1485,6 +1485,11 @@ fn run20(x: &mut Exec4, plan: &Plan20) -> R<()> {
         }
         Ok(())
     };
+    // import must not set the collector in motion: let every collector run dry, then compare
+    let steps = x.ex.w.run_kind_until_idle("gc", 100_000)?;
+    if steps > 0 {
+        x.ex.w.probe("import:gc-ran-after-import");
+    }
     let tgt = observe(&target, &uni);
     compare("after import", &tgt)?;
     for (h, b) in &contents {
